@@ -6,14 +6,16 @@
    (the estimates, move_executable, exec_checked).  Proofs are in
    NR.Proofs.Estimates_proofs; this file only states the theorems.
 
-   VERDICT.  The property is FALSE of the model as stated
-   (C09_executable_executes_refuted): the vehicle max-wait estimate stops its
-   simulation as soon as every stop of the unit is placed and the arrival at a
-   planned stop is unchanged, but the exact check accumulates the waiting time
-   of the inserted stops into every later stop.  Every other built-in estimate
-   is sound, and the vehicle max-wait estimate is sound when travel durations
-   satisfy the triangle inequality and stop durations are non-negative
-   (C09_executable_executes_partial).
+   VERDICT.  For the code as it is now the property HOLDS
+   (C09_executable_executes), for inputs without user constraints and without
+   negative distances.  It was FALSE before the fix of the vehicle max-wait
+   estimate (C09_prefix_executable_executes_refuted): that estimate stopped its
+   simulation as soon as every stop of the unit was placed and the arrival at a
+   planned stop was unchanged, but the exact check accumulates the waiting time
+   of the inserted stops into every later stop.  The witness below replayed on
+   the real code (move reported executable, Execute rejected it); the fix adds
+   the guard "the wait accumulated in front of the stop is not larger than the
+   cached one" to the break, and Model/Estimates.v models the fixed estimate.
 
    Definitions used in the statements that are not part of the models (they
    are in NR.Proofs.Engine_inv / Engine_spec / Estimates_proofs):
@@ -30,6 +32,10 @@
                              (durations_metric inp /\ stop_durations_nonneg inp)
      (all decidable: distances_nonneg_b, stop_durations_nonneg_b,
       durations_metric_b with their _ok lemmas)
+   est_max_wait_vehicle_prefix, estimate_violated_prefix, move_executable_prefix,
+   exec_checked_prefix    := the vehicle max-wait estimate BEFORE the fix
+                             (sim_wait with the guard [fun _ _ => true]) and the
+                             gate built on it; everything else as in the model
    new_cells inp s mv     := cells_from from the cached cell in front of the
                              first position over the new stop sequence behind it
                              (what propagate recomputes in exec_move)
@@ -48,52 +54,21 @@ From NR Require Import Model.Engine Model.Estimates
 Import ListNotations.
 Open Scope Z_scope.
 
-(* ---- 1. the property, under the side condition that makes it true.
-   WANTED (false, see 2):
-     forall inp s mv s' r, wf_input inp -> matrices_nonneg inp -> reachable inp s ->
-       move_ok inp s mv -> (forall u, In u (in_user inp) -> False) ->
-       move_executable inp s mv = true -> exec_checked inp s mv = (s', r) -> r = Done.
-   Extra hypothesis: wait_vehicle_side inp.  Of matrices_nonneg only the
-   distance part is needed (and it is needed: distances_nonneg_needed).
-   User constraints are excluded: their estimate is optimistic by design. *)
-Theorem C09_executable_executes_partial : forall inp s mv s' r,
+(* ---- 1. the property, full strength, for the code as it is now.
+   Of "matrices non-negative" only the distance part is needed (and it is
+   needed in the model: Estimates_proofs.distances_nonneg_needed; the code
+   takes another branch for expressions with negative values, which the model
+   does not cover).  User constraints are excluded: their estimate is
+   optimistic by design. *)
+Theorem C09_executable_executes : forall inp s mv s' r,
   wf_input inp -> distances_nonneg inp -> reachable inp s -> move_ok inp s mv ->
   (forall u, In u (in_user inp) -> False) ->
-  wait_vehicle_side inp ->
   move_executable inp s mv = true ->
   exec_checked inp s mv = (s', r) -> r = Done.
-Proof. exact C09_executable_executes_partial_proof. Qed.
-Print Assumptions C09_executable_executes_partial.
+Proof. exact C09_executable_executes_proof. Qed.
+Print Assumptions C09_executable_executes.
 
-(* ---- 2. the refutations.  Witness (w_inp, w_s1, w_mvX in Estimates_proofs):
-   stops X = 0 (window opens 3000) and Y = 1 (window opens 6600), no service
-   durations, one vehicle (first stop 2, last stop 3, start time 0, max wait
-   2400); travel durations first->Y 6000, first->X 600, X->Y 3000.  State: start
-   solution, then Y planned (route first Y last; Y waits 600).  Move: X in front
-   of Y.  X waits 2400, Y is still reached at 6000 (estimate breaks: "not
-   violated"), Y's accumulated wait is 3000 > 2400 (exact check rejects). *)
-Theorem C09_max_wait_vehicle_refuted :
-  exists inp s mv,
-    wf_input inp /\ input_windows_ok inp /\ matrices_nonneg inp /\ stop_durations_nonneg inp /\
-    (forall u, In u (in_user inp) -> False) /\
-    reachable inp s /\ move_ok inp s mv /\
-    has_max_wait_vehicle inp = true /\ est_max_wait_vehicle inp s mv = false /\
-    move_executable inp s mv = true /\
-    snd (exec_checked inp s mv) = Rejected KMaxWaitVehicle /\
-    same_obs (fst (exec_checked inp s mv)) s.
-Proof. exact C09_max_wait_vehicle_refuted_proof. Qed.
-Print Assumptions C09_max_wait_vehicle_refuted.
-
-Theorem C09_executable_executes_refuted :
-  exists inp s mv s' r,
-    wf_input inp /\ matrices_nonneg inp /\ reachable inp s /\ move_ok inp s mv /\
-    (forall u, In u (in_user inp) -> False) /\
-    move_executable inp s mv = true /\
-    exec_checked inp s mv = (s', r) /\ r = Rejected KMaxWaitVehicle.
-Proof. exact C09_executable_executes_refuted_proof. Qed.
-Print Assumptions C09_executable_executes_refuted.
-
-(* ---- 3. one statement per constraint: estimate "not violated" => every new
+(* ---- 2. one statement per constraint: estimate "not violated" => every new
    cell satisfies the constraint's clause of the exact check *)
 Theorem C09_est_capacity_sound : forall inp s mv,
   wf_input inp -> reachable inp s -> move_ok inp s mv ->
@@ -130,15 +105,14 @@ Theorem C09_est_max_wait_stop_sound : forall inp s mv,
 Proof. exact C09_est_max_wait_stop_sound_proof. Qed.
 Print Assumptions C09_est_max_wait_stop_sound.
 
-(* WANTED without the two side conditions: false (C09_max_wait_vehicle_refuted) *)
-Theorem C09_est_max_wait_vehicle_sound_partial : forall inp s mv,
+(* the fixed estimate: no side condition on the durations *)
+Theorem C09_est_max_wait_vehicle_sound : forall inp s mv,
   wf_input inp -> reachable inp s -> move_ok inp s mv ->
   unit_planned inp s (mv_unit mv) = false ->
-  durations_metric inp -> stop_durations_nonneg inp ->
   est_max_wait_vehicle inp s mv = false ->
   Forall (cl_max_wait_vehicle inp (mv_vehicle mv)) (new_cells inp s mv).
-Proof. exact C09_est_max_wait_vehicle_sound_partial_proof. Qed.
-Print Assumptions C09_est_max_wait_vehicle_sound_partial.
+Proof. exact C09_est_max_wait_vehicle_sound_proof. Qed.
+Print Assumptions C09_est_max_wait_vehicle_sound.
 
 (* est_max_stops and est_attributes have no exact counterpart: without user
    constraints the exact check of a cell IS the six clauses above *)
@@ -154,13 +128,13 @@ Print Assumptions C09_no_exact_check_for_max_stops_and_attributes.
 Theorem C09_new_cells_pass : forall inp s mv,
   wf_input inp -> reachable inp s -> move_ok inp s mv ->
   unit_planned inp s (mv_unit mv) = false ->
-  (forall u, In u (in_user inp) -> False) -> distances_nonneg inp -> wait_vehicle_side inp ->
+  (forall u, In u (in_user inp) -> False) -> distances_nonneg inp ->
   estimate_violated inp s mv = false ->
   Forall (fun c => stop_violation inp (mv_vehicle mv) true c = None) (new_cells inp s mv).
 Proof. exact C09_new_cells_pass_proof. Qed.
 Print Assumptions C09_new_cells_pass.
 
-(* ---- 4. the gate itself *)
+(* ---- 3. the gate itself *)
 Theorem C09_not_executable_not_executed : forall inp s mv,
   move_executable inp s mv = false -> exec_checked inp s mv = (s, NotExecutable).
 Proof. exact C09_not_executable_not_executed_proof. Qed.
@@ -171,6 +145,71 @@ Theorem C09_done_was_executable : forall inp s mv s',
   move_executable inp s mv = true /\ exec_move inp s mv = (s', Done).
 Proof. exact C09_done_was_executable_proof. Qed.
 Print Assumptions C09_done_was_executable.
+
+(* ---- 4. BEFORE THE FIX.  Witness (w_inp, w_s1, w_mvX in Estimates_proofs):
+   stops X = 0 (window opens 3000) and Y = 1 (window opens 6600), no service
+   durations, one vehicle (first stop 2, last stop 3, start time 0, max wait
+   2400); travel durations first->Y 6000, first->X 600, X->Y 3000.  State: start
+   solution, then Y planned (route first Y last; Y waits 600).  Move: X in front
+   of Y.  X waits 2400, Y is still reached at 6000 (the unguarded estimate
+   breaks: "not violated"), Y's accumulated wait is 3000 > 2400 (the exact check
+   rejects). *)
+Theorem C09_max_wait_vehicle_refuted :
+  exists inp s mv,
+    wf_input inp /\ input_windows_ok inp /\ matrices_nonneg inp /\ stop_durations_nonneg inp /\
+    (forall u, In u (in_user inp) -> False) /\
+    reachable inp s /\ move_ok inp s mv /\
+    has_max_wait_vehicle inp = true /\ est_max_wait_vehicle_prefix inp s mv = false /\
+    move_executable_prefix inp s mv = true /\
+    snd (exec_checked_prefix inp s mv) = Rejected KMaxWaitVehicle /\
+    same_obs (fst (exec_checked_prefix inp s mv)) s.
+Proof. exact C09_max_wait_vehicle_refuted_proof. Qed.
+Print Assumptions C09_max_wait_vehicle_refuted.
+
+Theorem C09_prefix_executable_executes_refuted :
+  exists inp s mv s' r,
+    wf_input inp /\ matrices_nonneg inp /\ reachable inp s /\ move_ok inp s mv /\
+    (forall u, In u (in_user inp) -> False) /\
+    move_executable_prefix inp s mv = true /\
+    exec_checked_prefix inp s mv = (s', r) /\ r = Rejected KMaxWaitVehicle.
+Proof. exact C09_prefix_executable_executes_refuted_proof. Qed.
+Print Assumptions C09_prefix_executable_executes_refuted.
+
+(* on the same witness the fixed estimate answers "violated": the move is not
+   offered any more *)
+Theorem C09_fixed_estimate_rejects_witness :
+  est_max_wait_vehicle_prefix w_inp w_s1 w_mvX = false /\
+  est_max_wait_vehicle w_inp w_s1 w_mvX = true /\
+  move_executable w_inp w_s1 w_mvX = false /\
+  exec_checked w_inp w_s1 w_mvX = (w_s1, NotExecutable).
+Proof. exact C09_fixed_estimate_rejects_witness_proof. Qed.
+Print Assumptions C09_fixed_estimate_rejects_witness.
+
+(* the fix only makes the estimate stricter *)
+Theorem C09_fix_only_stricter : forall inp s mv,
+  est_max_wait_vehicle_prefix inp s mv = true -> est_max_wait_vehicle inp s mv = true.
+Proof. exact C09_fix_only_stricter_proof. Qed.
+Print Assumptions C09_fix_only_stricter.
+
+(* what could be said before the fix: sound only for metric travel durations
+   and non-negative stop durations *)
+Theorem C09_prefix_est_max_wait_vehicle_sound_partial : forall inp s mv,
+  wf_input inp -> reachable inp s -> move_ok inp s mv ->
+  unit_planned inp s (mv_unit mv) = false ->
+  durations_metric inp -> stop_durations_nonneg inp ->
+  est_max_wait_vehicle_prefix inp s mv = false ->
+  Forall (cl_max_wait_vehicle inp (mv_vehicle mv)) (new_cells inp s mv).
+Proof. exact C09_prefix_est_max_wait_vehicle_sound_partial_proof. Qed.
+Print Assumptions C09_prefix_est_max_wait_vehicle_sound_partial.
+
+Theorem C09_prefix_executable_executes_partial : forall inp s mv s' r,
+  wf_input inp -> distances_nonneg inp -> reachable inp s -> move_ok inp s mv ->
+  (forall u, In u (in_user inp) -> False) ->
+  wait_vehicle_side inp ->
+  move_executable_prefix inp s mv = true ->
+  exec_checked_prefix inp s mv = (s', r) -> r = Done.
+Proof. exact C09_prefix_executable_executes_partial_proof. Qed.
+Print Assumptions C09_prefix_executable_executes_partial.
 
 (* ---- 5. the side conditions are checkable *)
 Theorem C09_side_conditions_decidable : forall inp,
